@@ -7,7 +7,7 @@ import z3
 
 from ..sym import bv64
 from ..models import vec_slice
-from .common import initial, mval
+from .common import initial, mval, T
 
 DRV_ANY = r"TestDriver>::write_input"
 KEEP = [r"get_row$", r"set_outputs$", r"extract_output_values$", r"into_data_row$", r"build_output_indices$",
@@ -91,7 +91,7 @@ def default_write_input(O, rep):
         if len(dc) != 1 or len(p.calls(DRV_ANY)) != 1:
             rep.fail(O, p, "default write_input makes %d output-reading calls" % len(dc))
             continue
-        if dc[0].args[1].target is not p.args.fields[2].target or dc[0].args[0].target is not p.args.fields[1].target:
+        if T(eng, dc[0].args[1]) is not T(eng, p.args.fields[2]) or T(eng, dc[0].args[0]) is not T(eng, p.args.fields[1]):
             rep.fail(O, p, "default write_input forwards different arguments")
         rt = eng.tag_of(dc[0].ret, None)
         rep.prove(O, p, eng.tag_of(p.ret, None) == rt, "default write_input succeeds iff the forwarded call did")
